@@ -28,6 +28,11 @@ inductive Inner
 inductive Op
   | thenOp (ctx : Nat) (body : List Inner)
   | finish (v : Nat)
+  /-- `finish(U&&)` through the CONVERTING overload whose conversion `T(U&&)` has a side effect: it
+  destroys context `c` — after `finish` has tested the context and before the continuation is invoked -/
+  | finishK (c : Nat) (v : Nat)
+  /-- `QXmppTask::takeResult()` on a finished value task that still holds its value -/
+  | take
   | destroyCtx (c : Nat)
   | copyHandle
   | dropHandle
@@ -107,6 +112,24 @@ def invokeCont (s : St) (c : Cont) (v : Delivered) : St × List Ev :=
   else
     ({ s with cont := none }, [])
 
+/-- `QXmppPromise::finish`.  `c` is a context destroyed by a side effect of converting the argument to
+the result type (converting overload only; `c = 0`: nothing is destroyed — the same-type and void
+overloads).  The conversion happens after the context test and before the continuation is invoked; the
+wrapper installed by `then` tests the context again (`invokeCont`). -/
+def finishCore (s : St) (c : Nat) (v : Nat) : St × List Ev :=
+  if s.refs = 0 ∨ s.finished then (s, []) else
+  let s := { s with finished := true }
+  let killed : St := { s with dead := if c = 0 then s.dead else c :: s.dead }
+  match s.cont with
+  | some k =>
+    -- `if (d.continuation()) { if (d.isContextAlive()) invoke }` — nothing stored either way
+    if s.alive k.ctx then invokeCont killed k (deliveredOf s.kind v)
+    else (s, [])
+  | none =>
+    match s.kind with
+    | .void => (s, [])
+    | .value => ({ killed with result := some v }, [])
+
 /-- one operation, without the end-of-step `released` report -/
 def stepCore (s : St) : Op → St × List Ev
   | .thenOp ctx body =>
@@ -130,18 +153,11 @@ def stepCore (s : St) : Op → St × List Ev
         | none => (s, [])
     else
       ({ s with nextId := k + 1, cont := some { id := k, ctx := ectx, body := body } }, [])
-  | .finish v =>
-    if s.refs = 0 ∨ s.finished then (s, []) else
-    let s := { s with finished := true }
-    match s.cont with
-    | some c =>
-      -- `if (d.continuation()) { if (d.isContextAlive()) invoke }` — nothing stored either way
-      if s.alive c.ctx then invokeCont s c (deliveredOf s.kind v)
-      else (s, [])
-    | none =>
-      match s.kind with
-      | .void => (s, [])
-      | .value => ({ s with result := some v }, [])
+  | .finish v => finishCore s 0 v
+  | .finishK c v => finishCore s c v
+  | .take =>
+    -- precondition of takeResult(): finished and hasResult; the value is moved out and the stored result reset
+    if s.refs = 0 then (s, []) else ({ s with result := none }, [])
   | .destroyCtx c =>
     ({ s with dead := if c = 0 then s.dead else c :: s.dead }, [])
   | .copyHandle =>
